@@ -28,6 +28,7 @@ def run(ctx):
     items += [("2", s) for s in core.v2_low_family()[:: (1 if ctx.tier == "thorough" else 3)]]
     for v in "234":
         items += [(v, s) for s in core.singletons(v, rng, ctx.n(12, 200))]
+        items += [(v, s) for s in core.special(v, rng, ctx.n(600, 12000))]
     # "every ACCEPTED vector": also whatever near-valid strings the constructors accept (none, on a tree whose
     # acceptance is exactly the grammar except through field order / spelling)
     extra = []
